@@ -168,6 +168,13 @@ def check(an: Analysis) -> None:
     ob = an.ob("C10.4", "K10", "presence of a previously stored metric is tested by `is None` / `in`, never by the truthiness of a (user-subclassable) State value", [f"{SM}.record"])
     n_tests = 0
     for n in gs.nodes:
+        if n.kind == "match-case":
+            m = parent(n.ast)
+            pat = n.ast.pattern  # type: ignore[union-attr]
+            if isinstance(m, ast.Match) and is_stored(m.subject) and isinstance(pat, ast.MatchSingleton) and pat.value is None:
+                n_tests += 1  # `case None:` is an identity test
+                ob.inst(srec, m.subject)
+            continue
         if n.kind != "test" or n.meta.get("assert") is not None:
             continue
         nc = norm_cond(n.ast)
@@ -296,6 +303,10 @@ def check(an: Analysis) -> None:
     else:
         ob.fail(sa, None, "task group exit / metrics exit not found in ScopeContext.__aexit__")
 
+    # ------------------------------------------------------------------ C10.7 the metrics variable is restored on every exit path (records land in the innermost *open* scope)
+    _borrowed_c02(an)
+
+
 
 def _within(a, b) -> bool:
     from ..loader import within
@@ -304,3 +315,10 @@ def _within(a, b) -> bool:
 
 
 _OBJ = object()
+
+
+def _borrowed_c02(an: Analysis) -> None:
+    from ..engine import borrow
+    from . import c02
+
+    borrow(an, c02.check, {"C02.1": "C10.7"}, keep=lambda f: "MetricsContext" in f.at or "MetricsContext" in f.message)
